@@ -159,7 +159,7 @@ impl Func {
     fn compile(self) -> Program {
         let m = self.module();
         let src = format!("use.std::crypto::hashes::{m}\nbegin\n    exec.{m}::{}\nend", self.proc());
-        assembler().compile(&src).unwrap_or_else(|e| panic!("family program must assemble: {src}: {e}"))
+        assembler().compile(&src).unwrap_or_else(|e| panic!("SUBJECT: family program must assemble: {src}: {e}"))
     }
 }
 
@@ -269,7 +269,7 @@ fn judge_stack(
             fail("panic", Some(("panic", json!(guard::short_panic(p)))), guard::short_panic(p));
             "panic"
         }
-        Outcome::AsmErr(e) => panic!("family program must assemble: {e}"),
+        Outcome::AsmErr(e) => panic!("SUBJECT: family program must assemble: {e}"),
         Outcome::Err(e) => {
             fail("unexpected_failure", Some(("error", json!(err_variant(e)))), format!("failed with {e}"));
             "unexpected_failure"
@@ -325,7 +325,7 @@ fn compile_chain(first: Func, second: Func) -> Program {
         second.module(),
         second.proc()
     );
-    assembler().compile(&src).unwrap_or_else(|e| panic!("family program must assemble: {src}: {e}"))
+    assembler().compile(&src).unwrap_or_else(|e| panic!("SUBJECT: family program must assemble: {src}: {e}"))
 }
 
 fn check_chain(ctx: &Ctx, first: Func, second: Func, prog: &Program, a: &[u32], b: &[u32], verbose: bool) -> &'static str {
@@ -547,7 +547,7 @@ fn check_interleave(ctx: &Ctx, progs: &(Program, Program), lane: u64, class: &st
 fn compile_interleave() -> (Program, Program) {
     let c = |name: &str| {
         let src = format!("use.std::crypto::hashes::keccak256\nbegin\n    exec.keccak256::{name}\nend");
-        assembler().compile(&src).unwrap_or_else(|e| panic!("family program must assemble: {src}: {e}"))
+        assembler().compile(&src).unwrap_or_else(|e| panic!("SUBJECT: family program must assemble: {src}: {e}"))
     };
     (c("to_bit_interleaved"), c("from_bit_interleaved"))
 }
